@@ -35,8 +35,16 @@ def _period(v: float, floor: float) -> float:
     return v
 
 
-def _mesh(net, nodes, p, k0=0, loss=0.0, bw=5_000_011.0):
+def _below(v: float, ceil: float) -> float:
+    """Divide by ten until <= ceil (never below one nanosecond)."""
+    while v > ceil:
+        v /= 10.0
+    return max(v, 1e-9)
+
+
+def _mesh(net, nodes, p, k0=0, loss=0.0, bw=5_000_011.0, lat_fn=None, jitter=True):
     k = k0
+    lat_fn = lat_fn or (lambda j: p.lat(j))
     for i, a in enumerate(nodes):
         for b in nodes[i + 1 :]:
             net.add_bidirectional_link(
@@ -44,8 +52,8 @@ def _mesh(net, nodes, p, k0=0, loss=0.0, bw=5_000_011.0):
                 b,
                 NetworkLink(
                     name=f"l_{a.name}_{b.name}",
-                    latency=ConstantLatency(p.lat(k)),
-                    jitter=ExponentialLatency(p.lat(k + 1)),
+                    latency=ConstantLatency(lat_fn(k)),
+                    jitter=ExponentialLatency(lat_fn(k + 1)) if jitter else None,
                     bandwidth_bps=bw,
                     packet_loss_rate=loss,
                 ),
@@ -100,7 +108,10 @@ def _ops_for(kind: str):
     if kind == "lww":
         return lambda rng, i: ("set", f"v{i}")
     if kind == "or":
-        return lambda rng, i: (("add", f"e{i % 4}") if i % 4 != 3 else ("remove", f"e{(i - 1) % 4}"))
+        # i % 7 == 6: remove of an element nobody ever added
+        return lambda rng, i: (
+            ("remove", "absent") if i % 7 == 6 else (("add", f"e{i % 4}") if i % 4 != 3 else ("remove", f"e{(i - 1) % 4}"))
+        )
     raise KeyError(kind)
 
 
@@ -113,15 +124,28 @@ def _factory_for(kind: str):
     }[kind]()
 
 
-def _crdt(kind: str, n: int, default_loss: float, with_partition: bool):
+def _crdt(kind: str, n_default: int, default_loss: float, with_partition: bool, proportion=None, writes=True):
+    """Stores = count(0) (1..12; a partition needs 2).  proportion 'gossip_fast': gossip interval <<
+    link latency (many pushes in flight); 'gossip_slow': interval >> link latency.  writes=False: the
+    clients only read (read before any write, merges of empty states, zero commands)."""
+
     def build(seed, params):
         p = P(params, seed)
         rng = random.Random(seed)
         end = p.end()
+        n = p.count(0, n_default, lo=2 if (with_partition or not writes) else 1, hi=5 if proportion == "gossip_fast" else 12)
         net = Network(name="net")
         factory = _factory_for(kind)
-        # x.raw_intervals: use the drawn latencies unscaled (reproducer for sub-nanosecond intervals)
-        gi = [p.lat(i) if p.x("raw_intervals", False) else _period(p.lat(i), end / 120.0) for i in range(n)]
+        link_lat = None
+        if proportion == "gossip_fast":
+            gi = [_period(p.lat(i), end / 400.0) for i in range(n)]
+            link_lat = lambda k: _period(p.lat(k), end / 10.0)
+        elif proportion == "gossip_slow":
+            gi = [_period(p.lat(i), end / 6.0) for i in range(n)]
+            link_lat = lambda k: _below(p.lat(k), end / 6.0 / 2000.0)
+        else:
+            # x.raw_intervals: use the drawn latencies unscaled
+            gi = [p.lat(i) if p.x("raw_intervals", False) else _period(p.lat(i), end / 120.0) for i in range(n)]
         stores = [CRDTStore(f"s{i}", network=net, crdt_factory=factory, gossip_interval=gi[i]) for i in range(n)]
         for s in stores:
             s.add_peers([o for o in stores if o is not s])
@@ -130,14 +154,16 @@ def _crdt(kind: str, n: int, default_loss: float, with_partition: bool):
             for s in stores:
                 for k in KEYS:
                     s.get_or_create(k)
-        _mesh(net, stores, p, k0=n, loss=float(p.x("loss", default_loss)))
+        _mesh(net, stores, p, k0=n, loss=float(p.x("loss", default_loss)), lat_fn=link_lat)
         ops = _ops_for(kind)
         arr = p.arrivals(12)
 
         def plan(i):
             key = KEYS[0] if rng.random() < 0.7 else KEYS[1 + i % 2]
             store = stores[i % n]
-            if i % 5 == 4:
+            if i % 9 == 8:
+                return (store, "Read", "never_written", None, None)
+            if i % 5 == 4 or not writes:
                 return (store, "Read", key, None, None)
             operation, value = ops(rng, i)
             return (store, "Write", key, operation, value)
@@ -175,12 +201,14 @@ def _crdt(kind: str, n: int, default_loss: float, with_partition: bool):
         sim.schedule(ev(min(arr), "start", starter))
         for i, t in enumerate(arr):
             sim.schedule(ev(t, "start", clients[i % 3], worker=i))
+        # a late read of the contended key (also moves the clock of a single-store cluster)
+        sim.schedule(ev(max(arr) + int(p.lat(0) * 1e9) + 1, "start", clients[0], worker=4))
         if with_partition:
             sim.schedule(ev(min(arr), "start", pp))
             t_mid = min(arr) + int((p.lat(0) * 0.5 + max(gi)) * 1e9)
             for j in range(n):
                 sim.schedule(ev(t_mid, "start", clients[j % 3], worker=j))
-        return Scenario(sim, comps, "crdt", True, len(arr) + 1 + (2 * n if with_partition else 0))
+        return Scenario(sim, comps, "crdt", True, len(arr) + 2 + (2 * n if with_partition else 0))
 
     return build
 
@@ -193,6 +221,13 @@ scenario("crdt.lww_stamped_gossip", "crdt")(_crdt("lww", 3, 0.05, False))
 scenario("crdt.lww_stamped_partition", "crdt")(_crdt("lww", 4, 0.0, True))
 scenario("crdt.orset_gossip", "crdt")(_crdt("or", 3, 0.05, False))
 scenario("crdt.orset_partition", "crdt")(_crdt("or", 5, 0.02, True))
+# wide: many stores, gossip interval out of proportion with the links, no writes at all
+scenario("crdt.gcounter_many_stores", "crdt")(_crdt("g", 10, 0.0, False))
+scenario("crdt.orset_many_stores_lossy", "crdt")(_crdt("or", 12, 0.05, False))
+scenario("crdt.pncounter_gossip_faster_than_links", "crdt")(_crdt("pn", 3, 0.0, False, proportion="gossip_fast"))
+scenario("crdt.orset_gossip_slower_than_links", "crdt")(_crdt("or", 3, 0.02, False, proportion="gossip_slow"))
+scenario("crdt.lww_reads_only_empty_state", "crdt")(_crdt("lww", 3, 0.0, False, writes=False))
+scenario("crdt.orset_reads_only_empty_state", "crdt")(_crdt("or", 2, 0.0, True, writes=False))
 
 
 @scenario("crdt.mixed_types_two_stores", "crdt")
